@@ -135,6 +135,32 @@ var readerModes = []string{"whole", "one", "half", "dataerr", "chunk-2", "chunk-
 
 func decodeAll(b []byte) ([]log.Entry, int, string) { return decodeVia("whole", b) }
 
+// decodeFile decodes the content of a log file. A file that may hold an entry
+// beyond bufio's 64 KiB token limit (the decoder truncates those and may then
+// skip what follows; outside the model) is decoded line by line, each line by a
+// decoder of its own: the harness's messages are single lines.
+func decodeFile(b []byte) ([]log.Entry, int, string) {
+	if len(b) < 60000 {
+		return decodeAll(b)
+	}
+	var res []log.Entry
+	for len(b) > 0 {
+		n := bytes.IndexByte(b, '\n')
+		line := b
+		if n >= 0 {
+			line, b = b[:n+1], b[n+1:]
+		} else {
+			b = nil
+		}
+		es, k, txt := decodeAll(line)
+		res = append(res, es...)
+		if k != 0 {
+			return res, k, txt
+		}
+	}
+	return res, 0, ""
+}
+
 func decodeVia(mode string, b []byte) ([]log.Entry, int, string) {
 	d := log.NewEntryDecoder(readerFor(mode, b))
 	var res []log.Entry
@@ -642,7 +668,7 @@ func (r *runner) look(lens map[int64]int64, h int64) []snapFile {
 			if err != nil {
 				panic(err)
 			}
-			es, k, txt := decodeAll(b)
+			es, k, txt := decodeFile(b)
 			if k != 0 {
 				sf.DecodeErr = txt
 			}
@@ -1018,6 +1044,280 @@ func runHist(rng *rand.Rand, kind string, cal calib, seq *int, gcOnly, reopen bo
 		}
 	}
 	return hc, !r.glitch()
+}
+
+// ---------------------------------------------------------------------------
+// an entry as large as the logger's bufio buffer, after small unflushed ones
+
+const logBufferSize = 256 * 1024 // bufferSize of clog.go
+
+func runBig(rng *rand.Rand, kind string, cal calib, seq *int) (histCase, bool) {
+	sc := log.ScopeWithoutShowLogs(shim{})
+	defer sc.Close(shim{})
+	oldMax := atomic.LoadInt64(&log.LogFileMaxSize)
+	defer atomic.StoreInt64(&log.LogFileMaxSize, oldMax)
+	r := newRunner(kind, seq)
+	defer r.close()
+	hc := histCase{Logger: kind, H: cal.h, Max0: 1 << 20, Note: "entry of the size of the write buffer"}
+	atomic.StoreInt64(&log.LogFileMaxSize, hc.Max0) // no rotation
+	nextID := int64(1)
+	logN := func(want int64) {
+		id := nextID
+		nextID++
+		minLen := cal.overhead + int64(len(r.fullMsg(mkMsg(id, 0))))
+		if want < minLen {
+			want = minLen
+		}
+		msg := mkMsg(id, len(mkMsg(id, 0))+int(want-minLen))
+		length := cal.overhead + int64(len(r.fullMsg(msg)))
+		r.log(msg)
+		_, _, stamp := r.vl.State()
+		hc.Ops = append(hc.Ops, histOp{Op: "log", Id: id, Len: length, Now: stamp})
+	}
+	small := func() { logN(cal.overhead + 5 + int64(rng.Intn(80))) }
+	for n := 1 + rng.Intn(3); n > 0; n-- {
+		small()
+	}
+	logN(logBufferSize + []int64{-1, 0, 1, 57, 4096}[rng.Intn(5)])
+	for n := rng.Intn(3); n > 0; n-- {
+		small()
+	}
+	hc.Ops = append(hc.Ops, histOp{Op: "snap"})
+	hc.Snaps = append(hc.Snaps, r.snapshot())
+	return hc, !r.glitch()
+}
+
+// ---------------------------------------------------------------------------
+// secondary loggers with a directory of their own while the main logger has none
+
+func runOwnDir(rng *rand.Rand, cal calib, seq *int) ([]histCase, bool) {
+	if d := log.VerifLogDir(); d != "" {
+		panic("the main logger has a directory outside a scope: " + d)
+	}
+	oldMax := atomic.LoadInt64(&log.LogFileMaxSize)
+	defer atomic.StoreInt64(&log.LogFileMaxSize, oldMax)
+	gids := map[int64]bool{}
+	n := 1 + rng.Intn(2)
+	var rs []*runner
+	var hcs []histCase
+	maxChoices := []int64{300, cal.h + cal.overhead + 40, cal.h + 250, 2048, 1 << 20}
+	curMax := maxChoices[rng.Intn(len(maxChoices))]
+	atomic.StoreInt64(&log.LogFileMaxSize, curMax)
+	for i := 0; i < n; i++ {
+		dir, err := ioutil.TempDir("", "logverifc16own")
+		if err != nil {
+			panic(err)
+		}
+		defer os.RemoveAll(dir)
+		dn := &log.DirName{}
+		if err := dn.Set(dir); err != nil {
+			panic(err)
+		}
+		*seq++
+		sec := log.NewSecondaryLogger(context.Background(), dn, fmt.Sprintf("own%d", *seq), false /*enableGc*/, false)
+		r := &runner{kind: "secondary", sec: sec, vl: log.VerifSecondaryLogger(sec), dir: dir, planted: map[string]bool{}, gids: gids}
+		rs = append(rs, r)
+		hcs = append(hcs, histCase{Logger: "secondary-own-dir", H: cal.h, Max0: curMax, Note: "main logger without a directory"})
+	}
+	defer func() {
+		for _, r := range rs {
+			r.close()
+		}
+	}()
+	// listLogFiles reads the main logger's directory: scan the logger's own
+	scan := func(r *runner) []snapFile {
+		prog := strings.SplitN(r.vl.FileName(1000000000), ".", 2)[0]
+		infos, err := ioutil.ReadDir(r.dir)
+		if err != nil {
+			panic(err)
+		}
+		var res []snapFile
+		for _, info := range infos {
+			if !info.Mode().IsRegular() {
+				continue
+			}
+			det, err := log.ParseLogFilename(info.Name())
+			if err != nil || det.Program != prog {
+				panic("unexpected file in a logger's own directory: " + info.Name())
+			}
+			sf := snapFile{Stamp: det.Time / 1e9, Size: info.Size(), Name: info.Name()}
+			b, err := ioutil.ReadFile(filepath.Join(r.dir, info.Name()))
+			if err != nil {
+				panic(err)
+			}
+			es, k, txt := decodeFile(b)
+			if k != 0 {
+				sf.DecodeErr = txt
+			}
+			for _, e := range es {
+				gids[e.Goroutine] = true
+				if id, ok := idOf(e.Message); ok {
+					sf.Ids = append(sf.Ids, id)
+				} else {
+					sf.Other++
+				}
+			}
+			res = append(res, sf)
+		}
+		sort.SliceStable(res, func(a, b int) bool { return res[a].Stamp < res[b].Stamp })
+		return res
+	}
+	snapAll := func() {
+		log.Flush()
+		for i, r := range rs {
+			hcs[i].Ops = append(hcs[i].Ops, histOp{Op: "snap"})
+			hcs[i].Snaps = append(hcs[i].Snaps, scan(r))
+		}
+	}
+	nextID := int64(1)
+	for k := 3 + rng.Intn(15); k > 0; k-- {
+		switch c := rng.Intn(12); {
+		case c == 0:
+			curMax = maxChoices[rng.Intn(len(maxChoices))]
+			atomic.StoreInt64(&log.LogFileMaxSize, curMax)
+			for i := range hcs {
+				hcs[i].Ops = append(hcs[i].Ops, histOp{Op: "setmax", Arg: curMax})
+			}
+		case c == 1:
+			snapAll()
+		default:
+			i := rng.Intn(n)
+			r := rs[i]
+			open, nb, _ := r.vl.State()
+			if !open {
+				nb = cal.h
+			}
+			want := cal.overhead + 5 + int64(rng.Intn(80))
+			if rng.Intn(3) == 0 {
+				want = curMax - nb + int64(rng.Intn(5)) - 2
+			}
+			id := nextID
+			nextID++
+			minLen := cal.overhead + int64(len(r.fullMsg(mkMsg(id, 0))))
+			if want < minLen {
+				want = minLen
+			}
+			if want > 8000 {
+				want = 8000
+			}
+			msg := mkMsg(id, len(mkMsg(id, 0))+int(want-minLen))
+			length := cal.overhead + int64(len(r.fullMsg(msg)))
+			r.log(msg)
+			_, _, stamp := r.vl.State()
+			hcs[i].Ops = append(hcs[i].Ops, histOp{Op: "log", Id: id, Len: length, Now: stamp})
+		}
+	}
+	snapAll()
+	return hcs, len(gids) <= 1
+}
+
+// ---------------------------------------------------------------------------
+// the public logging calls store the message they are given
+
+type apiCase struct {
+	Call    string // e.g. Infof/0: Infof without arguments
+	Sev     int64
+	NArgs   int
+	Format  string // %q
+	FormatB []byte
+	Fmt     string // %q of what package fmt makes of format and arguments (Sprintf, or Sprint for Info/Warning/Error)
+	FmtB    []byte
+	ObsSev  int64 // -1: not read back
+	Obs     string
+	ObsB    []byte
+}
+
+var apiFragments = []string{"progress: 100% done", "%s", "%d items", "100%%", "%!", "%!d(MISSING)", "a%", "%v %v", "plain text", "50%x",
+	"%", "%%%", "rate=%.2f", "%q and %T", "%[2]d", "%+v|%#v", "ends with %"}
+
+func runAPI(rng *rand.Rand, n int) []apiCase {
+	sc := log.ScopeWithoutShowLogs(shim{})
+	defer sc.Close(shim{})
+	oldMax := atomic.LoadInt64(&log.LogFileMaxSize)
+	defer atomic.StoreInt64(&log.LogFileMaxSize, oldMax)
+	atomic.StoreInt64(&log.LogFileMaxSize, 1<<20)
+	ctx := context.Background()
+	var cases []apiCase
+	for i := 0; i < n; i++ {
+		frag := apiFragments[rng.Intn(len(apiFragments))]
+		if rng.Intn(4) == 0 {
+			frag += " " + apiFragments[rng.Intn(len(apiFragments))]
+		}
+		sev := int64(1 + rng.Intn(3))
+		c := apiCase{Sev: sev, ObsSev: -1}
+		format := fmt.Sprintf("A%d|%s", i, frag)
+		var args []interface{}
+		switch rng.Intn(5) {
+		case 0, 1: // format only: stored verbatim
+		case 2:
+			args = []interface{}{"k", 7}
+		case 3:
+			args = []interface{}{3.5}
+		default: // Info / Warning / Error: operands, no format
+			args = []interface{}{format, 7, frag}
+			format = ""
+		}
+		c.NArgs = len(args)
+		c.Format, c.FormatB = fmt.Sprintf("%q", format), []byte(format)
+		want := ""
+		if format == "" {
+			want = fmt.Sprint(args...)
+		} else {
+			want = fmt.Sprintf(format, args...)
+		}
+		c.Fmt, c.FmtB = fmt.Sprintf("%q", want), []byte(want)
+		name := []string{"", "Info", "Warning", "Error"}[sev]
+		switch {
+		case format == "":
+			c.Call = name
+			switch sev {
+			case 1:
+				log.Info(ctx, args...)
+			case 2:
+				log.Warning(ctx, args...)
+			default:
+				log.Error(ctx, args...)
+			}
+		default:
+			c.Call = fmt.Sprintf("%sf/%d", name, len(args))
+			switch sev {
+			case 1:
+				log.Infof(ctx, format, args...)
+			case 2:
+				log.Warningf(ctx, format, args...)
+			default:
+				log.Errorf(ctx, format, args...)
+			}
+		}
+		cases = append(cases, c)
+	}
+	log.Flush()
+	vl := log.VerifMainLogger()
+	fis, err := vl.ListFiles()
+	if err != nil {
+		panic(err)
+	}
+	sort.Slice(fis, func(a, b int) bool { return fis[a].Details.Time < fis[b].Details.Time })
+	k := 0
+	for _, fi := range fis {
+		b, err := ioutil.ReadFile(filepath.Join(log.VerifLogDir(), fi.Name))
+		if err != nil {
+			panic(err)
+		}
+		es, _, _ := decodeAll(b)
+		for _, e := range es {
+			if !strings.HasPrefix(e.Message, "A") || k >= len(cases) {
+				continue
+			}
+			cases[k].ObsSev, cases[k].Obs, cases[k].ObsB = int64(e.Severity), fmt.Sprintf("%q", e.Message), []byte(e.Message)
+			k++
+		}
+	}
+	return cases
+}
+
+func coqAPI(c apiCase) string {
+	return fmt.Sprintf("(%d, %d, %s, %s, %s, %s)", c.Sev, c.NArgs, vh.Bytes(c.FormatB), vh.Bytes(c.FmtB), vh.Z(c.ObsSev), vh.Bytes(c.ObsB))
 }
 
 // ---------------------------------------------------------------------------
@@ -1488,8 +1788,10 @@ func main() {
 	time.Local = time.FixedZone("VERIF", zoneOff)
 
 	nCodec, nRaw, nProbe, nHist, nGC, nMulti, nReopen := 600, 260, 120, 80, 180, 70, 40
+	nBig, nOwn, nAPI := 6, 25, 160
 	if *tier == "thorough" {
 		nCodec, nRaw, nProbe, nHist, nGC, nMulti, nReopen = 8000, 3000, 600, 800, 1800, 700, 400
+		nBig, nOwn, nAPI = 40, 250, 1600
 	}
 
 	// ---- codec: well-formed entries and concatenations
@@ -1597,7 +1899,8 @@ func main() {
 	}
 
 	// ---- rotation / GC histories on real loggers
-	var hist []histCase
+	var hist, extraHist []histCase
+	var api []apiCase
 	var multi []multiCase
 	discarded := 0
 	var calMain, calSec calib
@@ -1608,14 +1911,53 @@ func main() {
 				// the loggers could not be driven at all (e.g. calibration impossible):
 				// the codec cases are still written; the check reports this separately
 				histErr = fmt.Sprint(r)
-				hist, multi = nil, nil
+				hist, multi, api = nil, nil, nil
 			}
 		}()
 		seq := 0
 		oldGC := debug.SetGCPercent(-1) // see the comment on glitch()
 		defer debug.SetGCPercent(oldGC)
+		// nothing on stderr, and stderr is not redirected into a log file, also
+		// outside the test scopes (the documented flags)
+		if err := flag.Set("logtostderr", "NONE"); err != nil {
+			panic(err)
+		}
+		if err := flag.Set("no-redirect-stderr", "true"); err != nil {
+			panic(err)
+		}
 		calMain = calibrate("main", &seq)
 		calSec = calibrate("secondary", &seq)
+		for i := 0; i < nBig; i++ {
+			kind, cal := "main", calMain
+			if i%2 == 1 {
+				kind, cal = "secondary", calSec
+			}
+			for try := 0; ; try++ {
+				h, ok := runBig(rng, kind, cal, &seq)
+				if ok {
+					extraHist = append(extraHist, h)
+					break
+				}
+				discarded++
+				if try > 20 {
+					panic("goroutine id never stable")
+				}
+			}
+		}
+		for i := 0; i < nOwn; i++ {
+			for try := 0; ; try++ {
+				hs, ok := runOwnDir(rng, calSec, &seq)
+				if ok {
+					extraHist = append(extraHist, hs...)
+					break
+				}
+				discarded++
+				if try > 20 {
+					panic("goroutine id never stable")
+				}
+			}
+		}
+		api = runAPI(rng, nAPI)
 		for i := 0; i < nHist+nGC+nReopen; i++ {
 			kind, cal := "main", calMain
 			if i%2 == 1 {
@@ -1646,6 +1988,7 @@ func main() {
 				}
 			}
 		}
+		hist = append(hist, extraHist...) // after the others: the samples index the first three kinds
 		// the calibration must still hold at the end (constant header widths)
 		if c := calibrate("main", &seq); c != calMain {
 			panic(fmt.Sprintf("calibration drifted: %v then %v", calMain, c))
@@ -1681,9 +2024,14 @@ func main() {
 	for _, m := range multi {
 		it = append(it, coqMulti(m))
 	}
-	sb.WriteString("Definition multi_cases : list multi_case := " + vh.ListNL(it) + ".\n")
+	sb.WriteString("Definition multi_cases : list multi_case := " + vh.ListNL(it) + ".\n\n")
+	it = nil
+	for _, c := range api {
+		it = append(it, coqAPI(c))
+	}
+	sb.WriteString("Definition api_cases : list api_case := " + vh.ListNL(it) + ".\n")
 	vh.WriteFile(*out, "cases.v", sb.String())
-	vh.WriteJSON(*out, "cases.json", map[string]interface{}{"codec": codec, "raw": raw, "probe": probe, "hist": hist, "multi": multi})
+	vh.WriteJSON(*out, "cases.json", map[string]interface{}{"codec": codec, "raw": raw, "probe": probe, "hist": hist, "multi": multi, "api": api})
 
 	// ---- summary
 	distinct := map[string]bool{}
@@ -1771,6 +2119,23 @@ func main() {
 			histNontrivial++
 		}
 	}
+	nBigSeen, nOwnSeen := 0, 0
+	for _, h := range hist {
+		if h.Logger == "secondary-own-dir" {
+			nOwnSeen++
+		} else if strings.HasPrefix(h.Note, "entry of the size") {
+			nBigSeen++
+		}
+	}
+	apiCalls := map[string]int{}
+	apiNontrivial := 0
+	for _, c := range api {
+		apiCalls[c.Call]++
+		if bytes.Contains(c.FormatB, []byte("%")) && !distinct["a"+c.Call+string(c.FormatB[bytes.IndexByte(c.FormatB, '|')+1:])] {
+			distinct["a"+c.Call+string(c.FormatB[bytes.IndexByte(c.FormatB, '|')+1:])] = true
+			apiNontrivial++
+		}
+	}
 	multiGcs, multiLogs, multiNontrivial := 0, 0, 0
 	for _, m := range multi {
 		ng, active := 0, map[int]bool{}
@@ -1791,7 +2156,7 @@ func main() {
 		}
 	}
 	samples := []interface{}{codec[0], codec[1+rng.Intn(len(codec)-1)], raw[rng.Intn(len(raw))], probe[rng.Intn(len(probe))]}
-	if len(hist) == nHist+nGC+nReopen {
+	if len(hist) >= nHist+nGC+nReopen {
 		samples = append(samples, hist[rng.Intn(nHist)], hist[nHist+rng.Intn(nGC)], hist[nHist+nGC+rng.Intn(nReopen)])
 	}
 	if len(multi) > 0 {
@@ -1803,10 +2168,11 @@ func main() {
 		"probe": len(probe), "probe_kinds": probeKinds, "probe_roundtrip_failures": probeFail,
 		"local_zone_offset_s": zoneOff,
 		"hist":                len(hist), "hist_error": histErr, "hist_discarded_goid_glitch": discarded, "hist_log_ops": logs, "hist_gc_ops": gcs, "hist_files_at_end": rotations,
-		"calibration":           map[string]interface{}{"main": []int64{calMain.overhead, calMain.h}, "secondary": []int64{calSec.overhead, calSec.h}},
+		"calibration":             map[string]interface{}{"main": []int64{calMain.overhead, calMain.h}, "secondary": []int64{calSec.overhead, calSec.h}},
+		"hist_buffer_sized_entry": nBigSeen, "hist_own_directory_loggers": nOwnSeen, "api": len(api), "api_calls": apiCalls,
 		"hist_close_reopen_ops": closes, "hist_reopens_under_same_name": sameName, "codec_readers": readerCount, "codec_longest_stream": longest,
 		"multi": len(multi), "multi_log_ops": multiLogs, "multi_gc_ops": multiGcs,
-		"distinct_nontrivial": nontrivial + histNontrivial + multiNontrivial,
+		"distinct_nontrivial": nontrivial + histNontrivial + multiNontrivial + apiNontrivial,
 		"samples":             samples,
 	})
 }
